@@ -50,8 +50,8 @@ func (r *Router) parseParamRoute(route *Route) (first string) {
 		route.spath = path
 	}
 
-	// "." -> "\."
-	path = quotePointChar(path)
+	// NOTICE: the start string and first node are compared with the request path,
+	// so must get them before quote the point char.
 	argPos := strings.IndexByte(path, '{')
 	optPos := strings.IndexByte(path, '[')
 	minPos := argPos
@@ -73,6 +73,9 @@ func (r *Router) parseParamRoute(route *Route) (first string) {
 			}
 		}
 	}
+
+	// "." -> "\."
+	path = quotePointChar(path)
 
 	// has optional char. /blog[/{id}]  -> /blog(?:/{id})
 	if optPos > 0 {
